@@ -10,7 +10,8 @@ LEVEL = 'exploration'
 SHARDS = {'quick': 8, 'thorough': 16}
 RULE = ('Hypothesis-generated operation programs (0-10 steps plus bursts of up to 21 calls of one output alias; '
         'instance/static/property inputs, instance/static outputs, instance and class-level operations, alias '
-        'resolvers, every capture selection, invertible input/output data handlers, interceptions nested in intercepted '
+        'resolvers, fallback aliases (also naming the live alias of another input of the operation, with the same call made '
+        'through both), every capture selection, invertible input/output data handlers, interceptions nested in intercepted '
         'bodies, raising bodies, raising operations, 2-3 worker threads with thread-private output aliases; values from '
         'the faithful domain, objects-without-aliasing and aliasing-without-list-state families) are built into real '
         'classes with the real decorators, recorded once, stored and fetched through a cassette in {in-memory, file, '
@@ -164,15 +165,53 @@ def check_roundtrip(ctx, case):
                   'out-raises', 'alias>9calls'})
     if (prog.get('params') or {}).get('copy_data_on_intercepion'):
         shapes.add('copy-on-interception')
+    if any(d.get('fallback') for d in prog['ins']):
+        shapes.add('fallback-aliases')
+        live = set(d['alias'] for d in prog['ins'])
+        if any(set(d['fallback']['aliases']) & (live - {d['alias']}) for d in prog['ins'] if d.get('fallback')):
+            shapes.add('fallback-is-live-alias-of-other-input')
     ctx.case(case, nt, classes=tuple('shape:' + s for s in sorted(shapes)) + (
         'cassette:' + cassette, 'style:' + style, 'family:' + case.get('family', '?')))
+
+
+@st.composite
+def with_fallbacks(draw, progs):
+    """Fallback aliases are a replay-time policy for entries that are missing; on unchanged code every call has its own
+    entry, so they must not change anything - also when a fallback alias is the live alias of another input of the same
+    operation (a legacy source kept next to its replacement) that was called with the same arguments."""
+    prog = draw(progs)
+    ins = prog['ins']
+    if not ins or not draw(st.booleans()):
+        return prog
+    pool = ['legacy', 'in.n1', 'cfg.n2']
+    for d in ins:
+        pool.append(d['alias'])
+        if d.get('resolver'):
+            pool += [d['alias'] + '.n1', d['alias'] + '.n2']
+    for d in ins:
+        if draw(st.booleans()):
+            d['fallback'] = {'kind': draw(st.sampled_from(['list', 'fn'])),
+                             'aliases': draw(st.lists(st.sampled_from(pool), min_size=1, max_size=2))}
+    # the same call made through another input (same arguments, other alias), before or after the original
+    calls = [s for s in prog['steps'] if s['t'] == 'in']
+    for _ in range(draw(st.integers(0, 2))):
+        if not calls or len(ins) < 2:
+            break
+        s = copy.deepcopy(draw(st.sampled_from(calls)))
+        j = draw(st.integers(0, len(ins) - 1))
+        if (ins[j]['kind'] == 'property') != (ins[s['i']]['kind'] == 'property'):
+            continue
+        s['i'] = j
+        s['ret'] = draw(st.integers(100, 105))
+        prog['steps'].insert(draw(st.integers(0, len(prog['steps']))), s)
+    return PS.assign_sids(prog)
 
 
 def cases():
     def fam(name, values):
         params = st.sampled_from([None, None, {'copy_data_on_intercepion': True}, {'copy_data_on_intercepion': True},
                                   {'sampling_rate': 1.5}, {'ignore_enforced_sampling': True}])
-        return st.fixed_dictionaries({'prog': PS.programs(values=values, params=params),
+        return st.fixed_dictionaries({'prog': with_fallbacks(PS.programs(values=values, params=params)),
                                       'cassette': st.sampled_from(CASSETTES),
                                       'style': st.sampled_from(['direct', 'metadata-class']), 'family': st.just(name)})
     return st.one_of(fam('objects', V.small_values), fam('objects', V.small_values),
